@@ -225,6 +225,64 @@ def linecov_start():
     mon.set_events(tool, mon.events.LINE)
 
 
+# ---- uninitialised memory is an environment answer like any other: np.empty / torch.empty hand out whatever the allocator has, which differs from
+# run to run and from process to process (a fresh process mostly sees zero pages).  The harness owns it: arrays that the CODE UNDER TEST
+# allocates without initialising them are filled with a poison (NaN for floats, a large odd pattern for integers) - correct code overwrites
+# every element before it reads it, so it cannot tell; code that reads such memory now does so deterministically and visibly.
+def poison_uninitialised():
+    if _W.get('poisoned') or os.environ.get('VERIF_NO_POISON'):
+        return
+    _W['poisoned'] = True
+    import numpy as np
+    prefix = REPO + os.sep
+
+    def from_repo():
+        f = sys._getframe(2)
+        return f.f_code.co_filename.startswith(prefix)
+
+    def np_fill(a):
+        try:
+            if a.dtype.kind in 'fc':
+                a.fill(np.nan)
+            elif a.dtype.kind in 'iu':
+                a.fill(np.iinfo(a.dtype).max - 6)
+            elif a.dtype.kind == 'b':
+                a.fill(True)
+        except Exception:  # noqa
+            pass
+        return a
+
+    for name in ('empty', 'empty_like'):
+        orig = getattr(np, name)
+
+        def make(orig):
+            def poisoned(*a, **k):
+                out = orig(*a, **k)
+                return np_fill(out) if from_repo() else out
+            poisoned.__wrapped__ = orig
+            return poisoned
+        setattr(np, name, make(orig))
+    try:
+        import torch
+    except Exception:  # noqa
+        return
+    for name in ('empty', 'empty_like'):
+        orig = getattr(torch, name)
+
+        def make_t(orig):
+            def poisoned(*a, **k):
+                out = orig(*a, **k)
+                if from_repo() and out.numel():
+                    if out.is_floating_point() or out.is_complex():
+                        out.fill_(float('nan'))
+                    elif out.dtype != torch.bool:
+                        out.fill_(torch.iinfo(out.dtype).max - 6)
+                return out
+            poisoned.__wrapped__ = orig
+            return poisoned
+        setattr(torch, name, make_t(orig))
+
+
 def linecov_dump(prop_id, tag):
     d = os.environ.get('VERIF_LINECOV')
     if not d or 'cov' not in _W:
@@ -245,6 +303,7 @@ def _worker_init(prop_id, tier, seed):
     logging.disable(logging.CRITICAL)
     _W['mod'] = load_prop(prop_id)
     _W['args'] = (prop_id, tier, seed)
+    poison_uninitialised()
     try:
         import torch
         torch.set_num_threads(1)
@@ -318,6 +377,7 @@ def replay(prop_id, path, as_json=False, history=False):
     (state kept between calls by the code under test)."""
     logging.disable(logging.CRITICAL)
     mod = load_prop(prop_id)
+    poison_uninitialised()
     with open(path) as f:
         doc = json.load(f)
     seed = int(os.environ.get('VERIF_SEED', doc.get('seed', 0)))
@@ -383,6 +443,7 @@ def run_check(prop_id, tier, workers=16, confirm=True, write_evidence=True):
     prop_id = mod.ID
     silent = io.StringIO()
     linecov_start()
+    poison_uninitialised()
     with contextlib.redirect_stdout(silent):
         if hasattr(mod, 'setup'):
             mod.setup(tier)
